@@ -1,0 +1,28 @@
+//go:build verif
+// +build verif
+
+// Package verifhook provides schedule/observation points for the verification
+// harness. It is only active when built with the `verif` tag; see off.go.
+package verifhook
+
+import "sync/atomic"
+
+var handler atomic.Value // func(point string, id uint32)
+
+// Enabled reports whether hooks are compiled in.
+const Enabled = true
+
+// Set installs (or, with nil, removes) the handler called at every Point.
+func Set(h func(point string, id uint32)) {
+	if h == nil {
+		h = func(string, uint32) {}
+	}
+	handler.Store(h)
+}
+
+// Point is a named schedule/observation point.
+func Point(point string, id uint32) {
+	if h, ok := handler.Load().(func(string, uint32)); ok {
+		h(point, id)
+	}
+}
